@@ -71,7 +71,12 @@ def preprocess(text, defines):
 
 
 def parse_unit(path, defines=()):
-    text = preprocess(open(path).read(), set(defines))
+    raw = open(path).read()
+    def inc(m):
+        return open(os.path.join(os.path.dirname(path), m.group(1))).read()
+    for _ in range(4):
+        raw = re.sub(r'(?m)^#!\s*include\s+(\S+)\s*$', inc, raw)
+    text = preprocess(raw, set(defines))
     unit = {'name': None, 'props': [], 'prelude': [], 'sources': {}, 'opts': set(), 'parts': [], 'rules': []}
     cur = None      # current part
     sub = None      # current sub-section of a fn part
@@ -254,7 +259,7 @@ def label_lines(lines, fnname, section_default=None):
         if m:
             section = m.group(1)
             clause = None
-        m2 = re.match(r'(\s*(?:(?:requires|ensures|invariant|decreases|recommends)\s+)?)\[([A-Za-z0-9_.\-]+)\]\s*', ln)
+        m2 = re.match(r'(\s*(?:(?:requires|ensures|invariant|decreases|recommends)\s+)?)\[([A-Za-z0-9_.:+\-]+)\]\s*', ln)
         if m2:
             clause = m2.group(2)
             ln = m2.group(1) + '    ' + ln[m2.end():]
@@ -310,6 +315,9 @@ def build_fn(part, sf, unit, opts, canary=None):
     # --- rewrite body
     body2, c2 = rules.apply(body, opts, 'fn')
     body2 = fix_assoc(body2)
+    if kv.get('assumed'):
+        # contract assumed, body not verified: do not even type-check it (its callees need not be extracted)
+        body2 = '{ unimplemented!() }' + '\n' * body2.count('\n')
     for k, v in list(c1.items()) + list(c2.items()):
         counts[k] = counts.get(k, 0) + v
     if it.parent is not None and it.parent.name[1]:
@@ -502,12 +510,22 @@ def pub_fields(text):
 
 
 def build_item(part, sf, opts):
+    if part['ikind'] == 'allconsts':
+        segs, n = [], 0
+        for it in sf.items:
+            if it.kind == 'const':
+                t = 'pub ' + re.sub(r'^\s*pub(\([^)]*\))?\s+', '', sf.src[it.sig_start:it.end])
+                segs.append(Seg(t + '\n', (sf.rel, it.sig_start), {'section': 'item', 'item': it.name}))
+                n += 1
+        if n == 0:
+            raise LostAnchor('no consts in ' + sf.rel)
+        return segs, {'item': 'allconsts(%d)' % n, 'file': sf.rel, 'line': 1, 'rules': {}}
     it = sf.find(part['ikind'], part['name'])
     text = sf.src[it.sig_start:it.end]
     attrs = sf.src[it.start:it.sig_start]
     o = dict(opts)
-    if part['kv'].get('keep_derives'):
-        o['keep_derives'] = tuple(part['kv']['keep_derives'].split(','))
+    if 'keep_derives' in part['kv']:
+        o['keep_derives'] = tuple(x for x in str(part['kv']['keep_derives']).split(',') if x and x != 'True')
     a2, c0 = rules.apply(attrs, o, 'item')
     t2, c1 = rules.apply(text, o, 'item')
     t2 = 'pub ' + re.sub(r'^\s*pub(\([^)]*\))?\s+', '', t2)
